@@ -310,6 +310,33 @@ func c03(c *core.Ctx) {
 				n++
 				bad := mdRetained(fn, par, 0)
 				c.Check(bad == "", core.FuncName(fn)+":md-not-retained", fn.Pos(), "the metadata parameter is only read or forwarded", "the handler's metadata "+bad+": a handler that reuses or edits the map after the call changes (or loses) what it had set, and the two sides share a map")
+				// values of one key keep the order in which they were set: where the new metadata is merged with what
+				// was set before by metadata.Join, the earlier values come first
+				for _, jc := range core.CallsIn(fn, func(_ *ssa.Call, ci core.CallInfo) bool { return ci.Is(metadataPkg + ".Join") }) {
+					args, unp := core.VariadicArgs(jc.Call.Args[0])
+					if !unp || len(args) < 2 {
+						continue
+					}
+					isNew := func(v ssa.Value) bool { return core.OriginIs(v, func(o ssa.Value) bool { return o == ssa.Value(par) }) }
+					isAcc := func(v ssa.Value) bool {
+						return core.OriginIs(v, func(o ssa.Value) bool {
+							_, _, isF := core.FieldOf(o)
+							return isF
+						})
+					}
+					iNew, iAcc := -1, -1
+					for i, a := range args {
+						if isNew(a) && iNew < 0 {
+							iNew = i
+						}
+						if isAcc(a) && !isNew(a) {
+							iAcc = i
+						}
+					}
+					if iNew >= 0 && iAcc >= 0 {
+						c.Check(iAcc < iNew, core.FuncName(fn)+":join-order", jc.Pos(), "metadata.Join(<set before>, <new>): values of one key stay in the order they were set", "metadata.Join puts the newly set metadata in front of what was set before: a key set in two calls arrives with its values in the wrong order")
+					}
+				}
 			}
 		}
 		if n == 0 {
